@@ -10,6 +10,13 @@ def fresh_name(prefix):
     return f"{prefix}!{next(_fresh)}"
 
 
+def reset_names():
+    """Symbol numbering restarts for every function under contract: the generated formulas (and hence the solver's behaviour) do not
+    depend on which functions the same worker process handled before."""
+    global _fresh
+    _fresh = itertools.count()
+
+
 INDEX_STACK = []      # indices of the enclosing symbolic comprehensions (innermost last)
 
 
